@@ -58,7 +58,7 @@ def add_uplink(u):
                    C('C07+C17.uplink.reg_err_disconnects', '%s == Some(0x9210u16) ==> !final(conn).connected && final(conn).last_received is None' % T),
                    C('C09+C13.uplink.delivery_proof_only_from_an_answered_keepalive',
                      'final(conn).last_ack_or_rtt_sample_ms != old(conn).last_ack_or_rtt_sample_ms ==> %s == Some(0x9000u16) && old(conn).rtt.waiting_for_keepalive_response && spec_keepalive_ts(data@) is Some' % T),
-                   C('C04+C07+C08+C09+C10+C14.uplink.liveness_stamp_and_clean_rejoin', 'exists|now: u64| #[trigger] uplink_post(old(conn), final(conn), data@, now)'),
+                   C('C04+C07+C08+C09+C10+C13+C14.uplink.liveness_stamp_and_clean_rejoin', 'exists|now: u64| #[trigger] uplink_post(old(conn), final(conn), data@, now)'),
                    C('C02+C09.uplink.ack_nak_lists_are_exactly_the_parsed_lists',
                      'r->Ok_0.ack_numbers@ =~= (if %s == Some(0x8002u16) && spec_parse_srt_ack(data@) is Some { seq![spec_parse_srt_ack(data@).unwrap()] } else { Seq::<u32>::empty() })\n'
                      '            && r->Ok_0.nak_numbers@ =~= (if %s == Some(0x8003u16) { spec_parse_srt_nak(data@) } else { Seq::<u32>::empty() })\n'
@@ -76,10 +76,10 @@ def add_uplink(u):
                },
                splices=[
                    ('return Ok(incoming);', '''proof {
-                assert(uplink_post(old(conn), conn, data@, now));  // @ob C04+C07+C08+C09+C10+C14.uplink.liveness_stamp_and_clean_rejoin
+                assert(uplink_post(old(conn), conn, data@, now));  // @ob C04+C07+C08+C09+C10+C13+C14.uplink.liveness_stamp_and_clean_rejoin
             }''', 'before'),
                    ('    Ok(incoming)\n}', '''    proof {
-        assert(uplink_post(old(conn), conn, data@, now));  // @ob C04+C07+C08+C09+C10+C14.uplink.liveness_stamp_and_clean_rejoin
+        assert(uplink_post(old(conn), conn, data@, now));  // @ob C04+C07+C08+C09+C10+C13+C14.uplink.liveness_stamp_and_clean_rejoin
     }
     Ok(incoming)
 }''', 'replace'),
